@@ -4,7 +4,7 @@ import json, os, sys
 ROOT = os.path.dirname(os.path.dirname(os.path.abspath(__file__)))
 sys.path.insert(0, os.path.join(ROOT, 'lib'))
 from props import PROPS
-from manifest_text import TEXT, NOT_YET, HOOK_COMMITS, EXTRA
+from manifest_text import TEXT, NOT_YET, HOOK_COMMITS, EXTRA, EXTRA4
 
 ids = [json.loads(l)['id'] for l in open(os.path.join(ROOT, 'properties.jsonl'))]
 checks, na = [], []
@@ -18,7 +18,7 @@ for pid in ids:
             evidence_file='/verif/evidence/%s.json' % pid,
             replay_cmd_template='./check %s --replay {path}' % pid,
             engine='coq-proof+correspondence',
-            level_claimed=dict(category='proof', text=t['level'] + (' ' + EXTRA[pid] if pid in EXTRA else ''), design_ref=t.get('design_ref', 'DESIGN.md §4 ' + pid)),
+            level_claimed=dict(category='proof', text=t['level'] + (' ' + EXTRA[pid] if pid in EXTRA else '') + (' ' + EXTRA4[pid] if pid in EXTRA4 else ''), design_ref=t.get('design_ref', 'DESIGN.md §4 ' + pid)),
             level_note=t['note'],
             technique=t['technique'],
         ))
